@@ -293,6 +293,10 @@ class Comparer:
             else:
                 base = C.canon_expr(tgt.value, env)
             bsa = C.single_atom(base) if C.is_poly(base) else base
+            if bsa is None and isinstance(tgt.value, ast.Name):
+                # a local array that holds a computed value (e.g. the result of array arithmetic): the store goes
+                # into the array of that name
+                bsa = ('n', env.cn(tgt.value.id))
             if bsa is None:
                 raise Inconclusive(f"{self.loc(side, st)}: store into computed base")
             root = bsa
